@@ -33,7 +33,7 @@ func (C12) Explore(x *kernel.Explorer, seed uint64) {
 	r := kernel.NewRNG(seed, 0xc12)
 	for i := 0; i < 4 && !x.Expired(); i++ {
 		plan := &kernel.Plan{Prop: "C12", Seed: kernel.Mix(seed, uint64(i)), Swarm: map[string]int64{"idlenth": int64([]int{0, 0, 0, 2, 3}[r.Intn(5)]),
-			"chunk": []int64{0, 0, 1, 3}[r.Intn(4)], "part": int64(1 + r.Intn(2)), "colseed": int64(r.Uint32()), "mysql": int64(r.Intn(3) / 2), "depeof": int64(r.Intn(2)), "wyield": int64(r.Intn(2))}}
+			"chunk": []int64{0, 0, 1, 3}[r.Intn(4)], "part": int64(1 + r.Intn(2)), "colseed": int64(r.Uint32()), "mysql": int64(r.Intn(3) / 2), "depeof": int64(r.Intn(2)), "rawmy": int64(r.Intn(2)), "reexec": int64(r.Intn(2)), "wyield": int64(r.Intn(2))}}
 		n := 2 + r.Intn(6)
 		if r.Intn(400) == 0 {
 			// rarely: MySQL payloads around the 16 MiB packet boundary (multi-packet payloads), whole deliveries
@@ -150,6 +150,24 @@ func (C12) Run(t *testing.T, plan *kernel.Plan, keepLog bool) *kernel.Result {
 				vals[k] = marker(c, rows, 1)
 			}
 			ins := insertStmt(names, rows, vals, cols, op.Arg(2, 0) == 1)
+			if ins.Extended && op.Arg(0, 0)%3 != 0 {
+				// every parameter in the binary format (one code for all, or one per parameter), as drivers that
+				// prefer the binary format send them; numeric protected values stay text, so only without such columns
+				numeric := false
+				for _, c := range cols {
+					numeric = numeric || c.numeric()
+				}
+				if !numeric {
+					ins.Params[0] = []byte{byte(rows >> 24), byte(rows >> 16), byte(rows >> 8), byte(rows)}
+					ins.ParamFormats = []int16{1}
+					if op.Arg(0, 0)%3 == 2 {
+						ins.ParamFormats = make([]int16, len(ins.Params))
+						for k := range ins.ParamFormats {
+							ins.ParamFormats[k] = 1
+						}
+					}
+				}
+			}
 			if op.Arg(3, 0) >= 2 {
 				// extended protocol, declared parameter types, protected values as literals:
 				// the query text of the Parse message grows while its parameter types stay
